@@ -280,6 +280,12 @@ def func_cases():
             p = draw(st.sampled_from(named))
             other = p["name"] if case["spell"].get(p["name"]) == "alias" else (p.get("alias") or p["alias_from"][0])
             out["extra_kw"] = [[other, draw(st.sampled_from([case["assign"][p["name"]], 1, "x"]))]]
+        elif any(q["kind"] == "varkw" for q in sig["params"]) and draw(st.integers(0, 3)) == 0:
+            # a call Python refuses (a parameter passed by position and again by name): refused by both strategies alike
+            dup = [q for q in sig["params"] if q["kind"] == "pos" and q["name"] in case["assign"] and case["spell"].get(q["name"]) == "position"]
+            if dup:
+                q = draw(st.sampled_from(dup))
+                out["extra_kw"] = [[q["name"], draw(st.sampled_from([case["assign"][q["name"]], 1, "x"]))]]
         return out
     return build()
 
